@@ -36,6 +36,10 @@ CHECKS = {
     technique='TLA+ Dispatch.tla: documented precedence vs transcribed resolvers on the full lattice (TLC), every lattice point replayed on the four real classes and judged by TLC (DispatchCases.tla)',
     text='512-point lattice x ordinary/reserved events: TLC proves SrvResolve = CliResolve = DocResolve, function-beats-class, reserved-never-catch-all; 5376 (quick) real registries on Server/AsyncServer/Client/AsyncClient x sync/coroutine deliver a real frame / connect flow and TLC compares the callable that ran and its argument list with DocResolve; coverage of the lattice per class is checked by TLC.',
     ref='4/C13', note='Trusted: TLC, FakeEio standing in for engineio.Client on the client side.'),
+ 'C17': dict(
+    technique='TLA+ NsForward.tla: forwarding rule evaluated by TLC on the complete lattice of helper calls executed on the real namespace classes',
+    text='All 4 namespace classes x helper methods x all subsets of optional parameters x {positional, keyword} x {truthy, falsy-but-meaningful values}: the real helper is called on a namespace bound to a recording stub carrying the real target signatures (read from the working tree); TLC computes the expected explicit call from the rule in NsForward.tla and checks coverage of the lattice.',
+    ref='4/C17', note='Trusted: TLC, inspect.signature. Defaults of omitted optionals other than namespace are outside the claim, as the property says.'),
  'C16': dict(
     technique='TLA+ SioServer.tla (sessions config) + exhaustive graph validation with the real engine.io session store',
     text='C16_SessionIsolation: get_session/session() return the declared contents for that client+namespace, never a foreign value; known finding D6 (session survives a namespace-level disconnect) is modelled exactly, the design without it is model-checked.',
